@@ -258,6 +258,17 @@ type LemmaDef struct {
 	Line    int
 }
 
+// ChainDef declares a state machine whose states are methods under contract: the chain lemma checks, for every
+// pair of states f, g, that the postcondition of f on the edge Next == g (with Err == nil) implies the precondition of g.
+type ChainDef struct {
+	Name   string // receiver, e.g. (*States)
+	States []string
+	Final  string
+	Props  []string
+	File   string
+	Line   int
+}
+
 type HParam struct {
 	Name string
 	Type string // SMT sort or Go type text
@@ -286,6 +297,7 @@ type SpecFile struct {
 	Lemmas    []*LemmaDef
 	Ghosts    []GhostVar
 	FnTypes   []string
+	Chains    []*ChainDef
 }
 
 type parser struct {
@@ -317,7 +329,7 @@ func (ps *parser) expectOp(s string) error {
 
 var clauseKW = map[string]bool{"requires": true, "ensures": true, "modifies": true, "invariant": true, "decreases": true,
 	"let": true, "ghost": true, "on": true, "checks": true, "nopanic": true, "pure": true, "trusted": true, "inline": true, "props": true, "attr": true,
-	"func": true, "macro": true, "ufunc": true, "axiom": true, "sort": true, "lemma": true, "assume": true, "show": true, "hfunc": true, "fntype": true}
+	"func": true, "macro": true, "ufunc": true, "axiom": true, "sort": true, "lemma": true, "assume": true, "show": true, "hfunc": true, "fntype": true, "chain": true, "states": true, "final": true}
 
 // atClauseStart: a clause keyword at beginning of a line ends the previous expression.
 func (ps *parser) atClauseStart() bool {
@@ -364,6 +376,19 @@ func (ps *parser) readFuncName() (string, error) {
 		}
 		sb.WriteString(t.text)
 		ps.next()
+	}
+	return sb.String(), nil
+}
+
+// readChainName reads a receiver like (*States) up to the end of the line.
+func (ps *parser) readChainName() (string, error) {
+	var sb strings.Builder
+	line := ps.peek().line
+	for ps.peek().line == line && ps.peek().kind != "eof" {
+		sb.WriteString(ps.next().text)
+	}
+	if sb.Len() == 0 {
+		return "", ps.errf("chain needs a receiver")
 	}
 	return sb.String(), nil
 }
@@ -529,6 +554,35 @@ func (ps *parser) parseFile() (*SpecFile, error) {
 				return nil, err
 			}
 			sf.Axioms = append(sf.Axioms, &AxiomDef{name, e, ps.file, line})
+		case "chain":
+			ps.next()
+			c := &ChainDef{File: ps.file, Line: ps.peek().line}
+			name, err := ps.readChainName()
+			if err != nil {
+				return nil, err
+			}
+			c.Name = name
+			for !ps.atTopDecl() {
+				t := ps.next()
+				switch t.text {
+				case "states":
+					for !ps.atClauseStart() && !ps.isID("final") && !ps.isID("props") {
+						c.States = append(c.States, ps.next().text)
+					}
+				case "final":
+					c.Final = ps.next().text
+				case "props":
+					for !ps.atClauseStart() {
+						c.Props = append(c.Props, ps.next().text)
+						if ps.isOp(",") {
+							ps.next()
+						}
+					}
+				default:
+					return nil, ps.errf("unexpected %q in chain", t.text)
+				}
+			}
+			sf.Chains = append(sf.Chains, c)
 		case "lemma":
 			l, err := ps.parseLemma()
 			if err != nil {
@@ -621,7 +675,7 @@ func (ps *parser) atTopDecl() bool {
 		return false
 	}
 	switch t.text {
-	case "func", "macro", "ufunc", "axiom", "sort", "lemma", "trusted", "hfunc", "fntype":
+	case "func", "macro", "ufunc", "axiom", "sort", "lemma", "trusted", "hfunc", "fntype", "chain":
 		return true
 	case "ghost":
 		// top-level ghost declaration: "ghost name: Sort" with no initialiser, at column 0 after a blank line;
@@ -1396,4 +1450,5 @@ func mergeSpec(dst, src *SpecFile) {
 	dst.HFuncs = append(dst.HFuncs, src.HFuncs...)
 	dst.Ghosts = append(dst.Ghosts, src.Ghosts...)
 	dst.FnTypes = append(dst.FnTypes, src.FnTypes...)
+	dst.Chains = append(dst.Chains, src.Chains...)
 }
